@@ -131,7 +131,7 @@ func genCfg(r *rand.Rand) qcfg {
 			}
 			cfg = mkcfg("randp", n, 0, nil, p)
 		case k < 82: // p close to 1
-			p := 1 - math.Pow(10, -(1 + r.Float64()*15))
+			p := 1 - math.Pow(10, -(1+r.Float64()*15))
 			if r.Intn(6) == 0 {
 				p = math.Nextafter(1, 0)
 			}
@@ -497,7 +497,7 @@ func runPZero(c *kit.Ctx, r *rand.Rand) {
 }
 
 func runQuantile(c *kit.Ctx) {
-	ncfg := c.N(960, 40000)
+	ncfg := c.N(1920, 100000)
 	nUniform := 160
 	idx := 0
 	for i := 0; i < ncfg; i++ {
